@@ -238,6 +238,17 @@ func (c *Ctx) c12Maps() {
 					if n := core.BuiltinName(&v.Call); n == "delete" || n == "clear" {
 						m = v.Call.Args[0]
 					}
+					// library functions that write their first map argument
+					f := core.StaticCallee(v)
+					if f != nil && f.Origin() != nil {
+						f = f.Origin()
+					}
+					if f != nil && f.Pkg != nil && (f.Pkg.Pkg.Path() == "maps" || f.Pkg.Pkg.Path() == "golang.org/x/exp/maps") && len(v.Call.Args) > 0 {
+						switch strings.SplitN(f.Name(), "[", 2)[0] {
+						case "Copy", "Insert", "DeleteFunc", "Clear":
+							m = v.Call.Args[0]
+						}
+					}
 				}
 				if m == nil || core.NamedOf(m.Type()) != params {
 					continue
